@@ -132,6 +132,15 @@ pub(crate) fn hash<H: Hash + ?Sized>(v: &H) -> u64 {
     hasher.finish()
 }
 
+#[cfg(feature = "verif")]
+/// Verification hooks (feature `verif`, off by default): nothing here changes the behaviour of the crate.
+pub mod verif {
+    /// The request path built for a service name and a message name.
+    pub fn uri_path(service: &str, path: &str) -> String {
+        crate::to_uri_path(service, path)
+    }
+}
+
 pub(crate) fn to_uri_path(service: &str, path: &str) -> String {
     format!("/{}/{}", sanitise(service), sanitise(path))
 }
